@@ -94,365 +94,395 @@ def _consts(ctx):
 
 
 def check(ctx):
-    K = _consts(ctx)
-    wfacts = {"V2Parser.PREFIX": K["V2Parser.PREFIX"], "V1Parser.PROXYSTR": K["V1Parser.PROXYSTR"]}
-    # the first segment meets the object as __init__ left it
-    init = ctx.func(W, "HAProxyProtocolWrapper.__init__")
-    for st in walk_local(init):
-        tgt = st.targets[0] if isinstance(st, ast.Assign) and len(st.targets) == 1 else (st.target if isinstance(st, ast.AnnAssign) and st.value is not None else None)
-        if tgt is not None and isinstance(tgt, ast.Attribute) and src(tgt.value) == "self":
-            try:
-                v = peval(st.value, {})
-            except NotConst:
-                continue
-            if isinstance(v, (int, bytes, str, bool, type(None))):
-                wfacts[src(tgt)] = v
-    ctx.need(wfacts.get("self._proxyInfo", 0) is None and wfacts.get("self._parser", 0) is None, "__init__ sets _proxyInfo = None and _parser = None")
-
-    # ================= (a) sniffing, evaluated on concrete first segments =====================================================
-    f = ctx.func(W, "HAProxyProtocolWrapper.dataReceived")
-    g = ctx.cfg(f)
-    q = QW + "dataReceived"
-    dparam = f.args.args[1].arg
-    forwards = calls_with(g, "self.wrappedProtocol.dataReceived")
-    fw = [n for n, _ in forwards]
-    feeds = [(n, c) for n, c in calls_with(g, ".feed")]
-    ctx.need(feeds, "parser.feed(data) in HAProxyProtocolWrapper.dataReceived")
-    fd = [n for n, _ in feeds]
-    handlers = {h for n in fd for h in succ_of(g, n, "exc") if g.node(h).kind == "handler"}
-    closes = call_nodes(g, "self.loseConnection", "self.transport.loseConnection", "self.transport.abortConnection")
-    reject = [n for n in closes if not any(g.dominates(h, n) for h in handlers)]
-    ctx.check(bool(reject), "sniff/garbage-rejected", q + " | <site>", "a stream that does not start with a PROXY header is never refused")
-    mk = {"V1": [x.id for x in g.nodes if x.kind == "stmt" and g.reachable(x.id) and isinstance(x.ast, ast.Assign) and call_name(x.ast.value) == "V1Parser"],
-          "V2": [x.id for x in g.nodes if x.kind == "stmt" and g.reachable(x.id) and isinstance(x.ast, ast.Assign) and call_name(x.ast.value) == "V2Parser"]}
-    ctx.need(mk["V1"] and mk["V2"], "parser construction sites V1Parser() / V2Parser()")
-
-    for ver, samples in (("v1", V1_SAMPLES), ("v2", V2_SAMPLES)):
-        bad_k = set()
-        witness = ""
-        nprefix = 0
-        for name, h in samples.items():
-            for k in range(1, len(h)):
-                nprefix += 1
-                facts = dict(wfacts, **{dparam: h[:k]})
-                R = reach_under(g, facts, avoid=fd)
-                if R & set(reject):
-                    bad_k.add(k)
-                    if not witness:
-                        witness = f"first segment {h[:k]!r}: " + g.describe(path_under(g, facts, reject, avoid=fd))
-        ctx.extra.setdefault("prefixes_evaluated", 0)
-        ctx.extra["prefixes_evaluated"] += nprefix
-        c = q + f" | <{ver} header cut after {_ranges(bad_k)} bytes>" if bad_k else q + f" | <{ver} header cut anywhere>"
-        ctx.check(not bad_k, "sniff/valid-prefix-rejected", c,
-                  f"a valid PROXY {ver} header whose first segment ends after {_ranges(bad_k)} bytes makes the wrapper close the connection: the decision "
-                  "'not a PROXY header' is taken from the length of the current segment instead of waiting for the discriminating prefix",
-                  witness=witness)
-        # whole header (with payload) selects the right parser and is not rejected
-        for name, h in samples.items():
-            facts = dict(wfacts, **{dparam: h + b"payload"})
-            want, other = (mk["V1"], mk["V2"]) if ver == "v1" else (mk["V2"], mk["V1"])
-            w = must_pass_under(g, facts, want, to=fd + [g.exit])
-            R = reach_under(g, facts, avoid=fd)
-            ctx.check(w is None and not (R & set(other)) and not (R & set(reject)), "sniff/version-dispatch", q + f" | <whole {ver} header {name}>",
-                      f"a complete {ver} header in the first segment does not select the {ver} parser", witness=g.describe(w))
-    for junk in GARBAGE:
-        facts = dict(wfacts, **{dparam: junk})
-        # refused at once, or handed to a parser (whose parse() refuses it: InvalidProxyHeader -> handler rules below); never forwarded unparsed
-        w = must_pass_under(g, facts, reject + fd)
-        R = reach_under(g, facts, avoid=fd)
-        ctx.check(w is None and not (R & set(fw)), "sniff/garbage-rejected", q + f" | <first segment {junk[:14]!r}...>",
-                  "a first segment that cannot begin a PROXY header is neither refused nor given to a parser, or reaches the application unparsed",
-                  witness=g.describe(w))
-
-    # ================= (b) ordering in the wrapper ================================================================================
-    for n, call in feeds:
-        c = ctx.construct(q, call)
-        ctx.check(len(call.args) == 1 and src(call.args[0]) == dparam, "wrapper/feeds-segment", c, "the parser is not fed exactly the received segment")
-        st = g.node(n).ast
-        tg = st.targets[0] if isinstance(st, ast.Assign) else None
-        ok = isinstance(tg, ast.Tuple) and len(tg.elts) == 2 and src(tg.elts[0]) == "self._proxyInfo" and isinstance(tg.elts[1], ast.Name)
-        ctx.check(ok, "wrapper/feed-result-stored", c, "the (info, remaining) result of feed() is not stored as self._proxyInfo / remaining")
-        rem = tg.elts[1].id if ok else None
-        hs = [h for h in succ_of(g, n, "exc") if g.node(h).kind == "handler"]
-        good_h = [h for h in hs if set(handler_names(g.node(h).ast)) & {"InvalidProxyHeader", "Exception", "BaseException"}]
-        ctx.check(bool(good_h), "wrapper/invalid-header-closes", c + " | handler",
-                  "InvalidProxyHeader (and its subclasses) raised by feed() is not caught around the call: an invalid header is not turned into a clean close")
-        for h in good_h:
-            w = g.must_pass([h], closes)
-            ctx.check(w is None, "wrapper/invalid-header-closes", ctx.construct(q, f"except {', '.join(handler_names(g.node(h).ast))}:"),
-                      "an invalid header does not close the connection", witness=g.describe(w))
-            R = g.reach([h], edge_ok=lambda a, b, l: l != "exc")
-            ctx.check(not (set(R) & set(fw)), "wrapper/invalid-header-forwards-nothing", ctx.construct(q, f"except {', '.join(handler_names(g.node(h).ast))}:") + " | nothing forwarded",
-                      "bytes are handed to the application after the header was found invalid")
-        for m, fc in forwards:
-            a = src(fc.args[0]) if fc.args else ""
-            cf = ctx.construct(q, fc)
-            if implied(g, m, [{"self._proxyInfo": NONNULL}], [{"self._proxyInfo": None}]):
-                ctx.check(a == dparam, "wrapper/pass-through", cf, "after the header, the application is not given exactly the received segment")
-            else:
-                ok2 = a == rem and g.must_precede([n], [m], exc=True) is None and g.path([n], [m], edge_ok=lambda a_, b_, l: l != "exc") is not None
-                ctx.check(ok2, "wrapper/only-remaining-forwarded", cf,
-                          "bytes reach the application that are neither post-header pass-through nor the 'remaining' part returned by feed(): "
-                          "header bytes leak to the application (or data is forwarded before the header was parsed)")
-                ctx.check(implied(g, m, [{a: b"x"}], [{a: b""}]) or implied(g, m, [{a: b"x"}], [{a: None}]), "wrapper/remaining-nonempty", cf,
-                          "the application is called with nothing / None when the header is still incomplete")
-    ctx.floor("wrapper/forward-sites", len(forwards), 2)
-    facts = {"self._proxyInfo": NONNULL}
-    w = must_pass_under(g, facts, [m for m, fc in forwards if fc.args and src(fc.args[0]) == dparam])
-    R = reach_under(g, facts)
-    ctx.check(w is None and not (R & set(fd)) and not (R & set(reject)), "wrapper/pass-through", q + " | <header already parsed>",
-              "once the header is parsed, later segments are not passed straight through (they are parsed / sniffed again)", witness=g.describe(w))
-    facts = {"self._proxyInfo": None, "self._parser": NONNULL}
-    w = must_pass_under(g, facts, fd)
-    R = reach_under(g, facts, avoid=fd)
-    ctx.check(w is None and not (R & set(reject)) and not (R & set(mk["V1"] + mk["V2"])), "wrapper/parser-kept-across-segments", q + " | <parser chosen, header incomplete>",
-              "the next segment of an incomplete header is sniffed again instead of being fed to the parser chosen for the first segment",
-              witness=g.describe(w))
-    for ver in ("V1", "V2"):
-        for n in mk[ver]:
-            st = g.node(n).ast
-            tgs = [src(t) for t in st.targets]
-            later = self_assigns(g, "_parser")
-            ok = "self._parser" in tgs or (later and g.must_pass([n], later, to=fd + [g.exit]) is None)
-            ctx.check(ok, "wrapper/parser-kept-across-segments", ctx.construct(q, st),
-                      "the parser chosen for the first segment is not stored in self._parser: the rest of a segmented header is sniffed as if it were a new stream")
-    acc = class_accesses(ctx.mod(W), ctx.cls(W, "HAProxyProtocolWrapper"), {"_proxyInfo"}, {"self"})
-    for a in acc:
-        ok = a.func.endswith(".__init__") or (a.func.endswith(".dataReceived") and any(a.node is g.node(n).ast for n in fd))
-        ctx.check(ok, "wrapper/proxyinfo-who-may-write", ctx.construct(Q + "_wrapper." + a.func, a.node), "_proxyInfo is set from something other than the parser's result")
-    for meth, attr in (("getPeer", "source"), ("getHost", "destination")):
-        fm = ctx.func(W, f"HAProxyProtocolWrapper.{meth}")
-        gm = ctx.cfg(fm)
-        rets = [x for x in gm.nodes if x.kind == "stmt" and gm.reachable(x.id) and isinstance(x.ast, ast.Return) and x.ast.value is not None]
-        pr = [x for x in rets if src(x.ast.value).startswith("self._proxyInfo.")]
-        ok = bool(pr) and all(src(x.ast.value) == f"self._proxyInfo.{attr}" for x in pr) and \
-            all(implied(gm, x.id, [{f"self._proxyInfo.{attr}": NONNULL, "self._proxyInfo": NONNULL}], [{f"self._proxyInfo.{attr}": None, "self._proxyInfo": NONNULL}]) for x in pr)
-        ctx.check(ok, "wrapper/address-from-header", QW + meth, f"{meth}() does not answer with the header's {attr} address when the header carried one")
-        tr = [x for x in rets if src(x.ast.value) == f"self.transport.{meth}()"]
-        ctx.check(bool(tr), "wrapper/address-fallback", QW + meth, f"{meth}() has no fallback to the transport's own address (UNKNOWN / LOCAL headers)")
-
-    # ================= (a') the parsers' feed(), evaluated on concrete segmentations =================================================
-    f1 = ctx.func(V1, "V1Parser.feed")
-    g1 = ctx.cfg(f1)
-    q1 = Q + "_v1parser.V1Parser.feed"
-    d1 = f1.args.args[1].arg
-    parse1 = call_nodes(g1, "self.parse", "cls.parse", "V1Parser.parse")
-    rz1 = _raises(g1, "InvalidProxyHeader")
-    none_ret = [x.id for x in g1.nodes if x.kind == "stmt" and g1.reachable(x.id) and isinstance(x.ast, ast.Return) and x.ast.value is not None
-                and src(x.ast.value) in ("(None, None)",)]
-    base1 = {"self.NEWLINE": K["V1Parser.NEWLINE"]}
-    nseg = 0
-    for name, h in V1_SAMPLES.items():
-        for cut in sorted({1, 5, 8, len(h) // 2, len(h) - 2, len(h) - 1}):
-            for k in (cut,):
-                nseg += 1
-                # first segment h[:k] : incomplete
-                facts = dict(base1, **{"self.buffer": b"", d1: h[:k]})
-                R = reach_under(g1, facts)
-                w = must_pass_under(g1, facts, none_ret)
-                ctx.check(w is None and not (R & set(rz1)) and not (R & set(parse1)), "v1feed/incomplete-waits", q1 + f" | <{name} header, first {k} of {len(h)} bytes>",
-                          "an incomplete v1 header is rejected or parsed instead of waiting for the rest", witness=g1.describe(w))
-                # second segment completes it
-                facts = dict(base1, **{"self.buffer": h[:k], d1: h[k:] + b"GET /\r\n\r\n"})
-                w = must_pass_under(g1, facts, parse1)
-                R = reach_under(g1, facts, avoid=parse1)
-                ctx.check(w is None and not (R & set(none_ret)), "v1feed/completed-header-parsed", q1 + f" | <{name} header completed by the 2nd segment after {k} bytes>",
-                          "a header completed by a later segment is not parsed", witness=g1.describe(w))
-    ctx.extra["feed_segmentations_evaluated"] = nseg
-    facts = dict(base1, **{"self.buffer": b"", d1: b"PROXY TCP6 " + b"f" * 95})   # 106 bytes, CR LF still to come: longest legal line is 107
-    R = reach_under(g1, facts)
-    ctx.check(not (R & set(rz1)), "v1feed/length-limit-admits-longest-header", q1 + " | <106 bytes buffered, no CRLF yet>",
-              "a v1 header of the maximum legal length (107 bytes with CRLF) is refused while its CRLF is still in flight")
-    facts = dict(base1, **{"self.buffer": b"", d1: b"P" * 300})
-    R = reach_under(g1, facts)
-    ctx.check(bool(R & set(rz1)) and g1.exit not in R, "v1feed/length-limit", q1 + " | <300 bytes, no CRLF>", "an endless first line is buffered without limit")
-    sp = [x for x in walk_local(f1) if isinstance(x, ast.Call) and isinstance(x.func, ast.Attribute) and x.func.attr == "split" and src(x.func.value) == "self.buffer"]
-    ok = len(sp) == 1 and len(sp[0].args) == 2 and src(sp[0].args[0]) == "self.NEWLINE" and const_value_is(sp[0].args[1], lambda v: v == 1)
-    ctx.check(ok, "v1feed/split-once", q1 + " | <split>",
-              "the buffer is not split exactly once at the first CRLF: a payload containing CRLF is truncated / mistaken for the header")
-    # (info, remaining): remaining is the tail of the split, header the head
-    rets = [x for x in walk_local(f1) if isinstance(x, ast.Return) and isinstance(x.value, ast.Tuple) and len(x.value.elts) == 2 and src(x.value) != "(None, None)"]
-    ok = False
-    if len(rets) == 1 and sp:
-        info, rem = rets[0].value.elts
-        idef = local_def(f1, info)
-        hname = src(idef.args[0]) if isinstance(idef, ast.Call) and call_name(idef) in ("self.parse", "cls.parse", "V1Parser.parse") and idef.args else None
-        lines = None
-        for st in walk_local(f1):
-            if isinstance(st, ast.Assign) and st.value is sp[0] and isinstance(st.targets[0], ast.Name):
-                lines = st.targets[0].id
-        pops = [n for n in g1.nodes if n.kind == "stmt" and g1.reachable(n.id) and isinstance(n.ast, ast.Assign) and isinstance(n.ast.value, ast.Call)
-                and lines and src(n.ast.value.func) == f"{lines}.pop" and isinstance(n.ast.targets[0], ast.Name)]
-        if hname and lines and len(pops) == 2 and all(not p.ast.value.args or const_value_is(p.ast.value.args[0], lambda v: v == -1) for p in pops):
-            first, second = (pops[0], pops[1]) if g1.path([pops[0].id], [pops[1].id], strict=True) else (pops[1], pops[0])
-            ok = first.ast.targets[0].id == src(rem) and second.ast.targets[0].id == hname
-        elif hname and lines:
-            for st in walk_local(f1):
-                if isinstance(st, ast.Assign) and isinstance(st.targets[0], ast.Tuple) and src(st.value) == lines:
-                    ok = [src(e) for e in st.targets[0].elts] == [hname, src(rem)]
-    ctx.check(ok, "v1feed/header-and-payload-order", q1 + " | <return>", "feed() does not return (parse(text before the first CRLF), bytes after it)")
-    rs1 = self_assigns(g1, "buffer", lambda v: const_value_is(v, lambda x: x == b""))
-    ctx.check(all(g1.must_precede(rs1, [p]) is None or True for p in parse1) and not (reach_under(g1, dict(base1, **{"self.buffer": b"", d1: b"PROXY"})) & set(rs1)),
-              "v1feed/buffer-kept-while-incomplete", q1 + " | <incomplete>", "the partial header is discarded while waiting for the rest")
-
-    f2 = ctx.func(V2, "V2Parser.feed")
-    g2 = ctx.cfg(f2)
-    q2 = Q + "_v2parser.V2Parser.feed"
-    d2 = f2.args.args[1].arg
-    parse2 = call_nodes(g2, "self.parse", "cls.parse", "V2Parser.parse")
-    rz2 = _raises(g2, "InvalidProxyHeader")
-    none2 = [x.id for x in g2.nodes if x.kind == "stmt" and g2.reachable(x.id) and isinstance(x.ast, ast.Return) and x.ast.value is not None and src(x.ast.value) == "(None, None)"]
-    rs2 = self_assigns(g2, "buffer", lambda v: const_value_is(v, lambda x: x == b""))
-    # smallest first segment for which the wrapper hands a v2 header to V2Parser
-    kmin = None
-    h0 = V2_SAMPLES["INET/STREAM"]
-    for k in range(1, len(h0) + 1):
-        if reach_under(g, dict(wfacts, **{dparam: h0[:k]}), avoid=fd) & set(mk["V2"]):
-            kmin = k
-            break
-    ctx.need(kmin, "a first-segment length for which the wrapper selects V2Parser")
-    for name, h in V2_SAMPLES.items():
-        for k in sorted(set(range(kmin, min(len(h), kmin + 4))) | {len(h) - 1}):
-            if k >= len(h) or k < kmin:
-                continue
-            facts = {"self.buffer": b"", d2: h[:k]}
-            R = reach_under(g2, facts)
-            w = must_pass_under(g2, facts, none2)
-            ctx.check(w is None and not (R & set(rz2)) and not (R & set(parse2)) and not (R & set(rs2)), "v2feed/incomplete-waits",
-                      q2 + f" | <{name} header, first {k} of {len(h)} bytes (wrapper selects V2Parser from {kmin} bytes)>",
-                      "an incomplete v2 header that the wrapper already routed to V2Parser is rejected, parsed or dropped instead of waiting",
-                      witness=g2.describe(w))
-            facts = {"self.buffer": h[:k], d2: h[k:]}
-            w = must_pass_under(g2, facts, parse2)
-            ctx.check(w is None, "v2feed/completed-header-parsed", q2 + f" | <{name} header completed exactly (no payload) after a cut at {k}>",
-                      "a v2 header whose last byte has just arrived is not parsed until more data comes", witness=g2.describe(w))
-    hs = [st for st in walk_local(f2) if isinstance(st, ast.Assign) and isinstance(st.targets[0], ast.Tuple) and isinstance(st.value, ast.Tuple) and len(st.value.elts) == 2]
-    ok = False
-    for st in hs:
-        a, b = (slice_parts(e) for e in st.value.elts)
-        if a and b and src(a[0]) == src(b[0]) == "self.buffer" and a[1] is None and a[2] is not None and b[2] is None and b[1] is not None and src(a[2]) == src(b[1]):
-            sz = local_def(f2, a[2])
-            try:
-                val = peval(sz, {"self.buffer": h0 + b"xyz"})
-            except NotConst:
-                val = None
-            names = [src(e) for e in st.targets[0].elts]
-            pr = [c for c in walk_local(f2) if isinstance(c, ast.Call) and call_name(c) in ("self.parse", "cls.parse", "V2Parser.parse")]
-            ok = val == len(h0) and bool(pr) and src(pr[0].args[0]) == names[0] and any(isinstance(r, ast.Return) and isinstance(r.value, ast.Tuple) and src(r.value.elts[1]) == names[1] for r in walk_local(f2))
-    ctx.check(ok, "v2feed/header-and-payload-split", q2 + " | <split>",
-              "feed() does not cut the buffer at 16 + the length field into (header given to parse, payload returned)")
-
-    # ================= (c) tables and constants ========================================================================================
-    ca2 = class_assigns(ctx.cls(V2, "V2Parser"))
-    try:
-        fmts = peval(ca2["ADDRESSFORMATS"], {}) if False else {peval(k, {}): peval(v, {}) for k, v in zip(ca2["ADDRESSFORMATS"].keys, ca2["ADDRESSFORMATS"].values)}
-    except (KeyError, NotConst, AttributeError):
-        fmts = None
-    ctx.need(isinstance(fmts, dict), "V2Parser.ADDRESSFORMATS literal")
-    fam = {}
-    for cname in ("NetFamily", "NetProtocol"):
-        cdef = ctx.cls(V2, cname)
-        vals = {}
-        for k, v in class_assigns(cdef).items():
-            if isinstance(v, ast.Call) and call_name(v) == "ValueConstant" and v.args:
-                vals[k] = peval(v.args[0], {})
-        fam[cname] = vals
-    spec_size = {0x10: 12, 0x20: 36, 0x30: 216}
-    for fn, fv in fam["NetFamily"].items():
-        for pn, pv in fam["NetProtocol"].items():
-            if fn == "UNSPEC" or pn == "UNSPEC":
-                continue
-            key = fv | pv
-            c = Q + f"_v2parser.V2Parser.ADDRESSFORMATS[{fn}|{pn} = {key:#04x}]"
-            okk = key in fmts
-            if okk:
+    K = {}
+    wr = []          # becomes non-empty once the wrapper's anchors were read
+    with ctx.section("protocol constants"):
+        K.update(_consts(ctx))
+    with ctx.section("wrapper anchors"):
+        # ---- sec: wrapper anchors
+        ctx.need(bool(K), "V1Parser / V2Parser constants")
+        wfacts = {"V2Parser.PREFIX": K["V2Parser.PREFIX"], "V1Parser.PROXYSTR": K["V1Parser.PROXYSTR"]}
+        # the first segment meets the object as __init__ left it
+        init = ctx.func(W, "HAProxyProtocolWrapper.__init__")
+        for st in walk_local(init):
+            tgt = st.targets[0] if isinstance(st, ast.Assign) and len(st.targets) == 1 else (st.target if isinstance(st, ast.AnnAssign) and st.value is not None else None)
+            if tgt is not None and isinstance(tgt, ast.Attribute) and src(tgt.value) == "self":
                 try:
-                    okk = struct.calcsize(fmts[key]) == spec_size.get(fv) and fmts[key][:1] in ("!", ">")
-                except struct.error:
-                    okk = False
-            ctx.check(okk, "v2table/address-formats", c,
-                      "no address format (or one of the wrong size / byte order) for a family|protocol byte the parser accepts: a valid header ends in KeyError "
-                      "or mis-sliced addresses")
-    ctx.floor("v2table/address-formats", len(fmts), 3)
-    fp2 = ctx.func(V2, "V2Parser.parse")
-    sl = [x for x in walk_local(fp2) if isinstance(x, ast.Assign) and slice_parts(x.value) and "calcsize" in src(x.value)]
-    ok = False
-    for st in sl:
-        v, lo, hi = slice_parts(st.value)
-        fmtname = None
-        for c in ast.walk(hi):
-            if isinstance(c, ast.Call) and call_name(c) in ("struct.calcsize", "calcsize") and c.args:
-                fmtname = src(c.args[0])
-        ups = [c for c in walk_local(fp2) if isinstance(c, ast.Call) and call_name(c) in ("struct.unpack", "unpack") and len(c.args) == 2]
+                    v = peval(st.value, {})
+                except NotConst:
+                    continue
+                if isinstance(v, (int, bytes, str, bool, type(None))):
+                    wfacts[src(tgt)] = v
+        ctx.need(wfacts.get("self._proxyInfo", 0) is None and wfacts.get("self._parser", 0) is None, "__init__ sets _proxyInfo = None and _parser = None")
+
+        # ================= (a) sniffing, evaluated on concrete first segments =====================================================
+        f = ctx.func(W, "HAProxyProtocolWrapper.dataReceived")
+        g = ctx.cfg(f)
+        q = QW + "dataReceived"
+        dparam = f.args.args[1].arg
+        forwards = calls_with(g, "self.wrappedProtocol.dataReceived")
+        fw = [n for n, _ in forwards]
+        feeds = [(n, c) for n, c in calls_with(g, ".feed")]
+        ctx.need(feeds, "parser.feed(data) in HAProxyProtocolWrapper.dataReceived")
+        fd = [n for n, _ in feeds]
+        handlers = {h for n in fd for h in succ_of(g, n, "exc") if g.node(h).kind == "handler"}
+        closes = call_nodes(g, "self.loseConnection", "self.transport.loseConnection", "self.transport.abortConnection")
+        reject = [n for n in closes if not any(g.dominates(h, n) for h in handlers)]
+        ctx.check(bool(reject), "sniff/garbage-rejected", q + " | <site>", "a stream that does not start with a PROXY header is never refused")
+        mk = {"V1": [x.id for x in g.nodes if x.kind == "stmt" and g.reachable(x.id) and isinstance(x.ast, ast.Assign) and call_name(x.ast.value) == "V1Parser"],
+              "V2": [x.id for x in g.nodes if x.kind == "stmt" and g.reachable(x.id) and isinstance(x.ast, ast.Assign) and call_name(x.ast.value) == "V2Parser"]}
+        ctx.need(mk["V1"] and mk["V2"], "parser construction sites V1Parser() / V2Parser()")
+        wr.append(True)
+
+    with ctx.section("sniffing"):
+        ctx.need(bool(wr), "anchors of HAProxyProtocolWrapper.dataReceived")
+        # ---- sec: sniffing
+        for ver, samples in (("v1", V1_SAMPLES), ("v2", V2_SAMPLES)):
+            bad_k = set()
+            witness = ""
+            nprefix = 0
+            for name, h in samples.items():
+                for k in range(1, len(h)):
+                    nprefix += 1
+                    facts = dict(wfacts, **{dparam: h[:k]})
+                    R = reach_under(g, facts, avoid=fd)
+                    if R & set(reject):
+                        bad_k.add(k)
+                        if not witness:
+                            witness = f"first segment {h[:k]!r}: " + g.describe(path_under(g, facts, reject, avoid=fd))
+            ctx.extra.setdefault("prefixes_evaluated", 0)
+            ctx.extra["prefixes_evaluated"] += nprefix
+            c = q + f" | <{ver} header cut after {_ranges(bad_k)} bytes>" if bad_k else q + f" | <{ver} header cut anywhere>"
+            ctx.check(not bad_k, "sniff/valid-prefix-rejected", c,
+                      f"a valid PROXY {ver} header whose first segment ends after {_ranges(bad_k)} bytes makes the wrapper close the connection: the decision "
+                      "'not a PROXY header' is taken from the length of the current segment instead of waiting for the discriminating prefix",
+                      witness=witness)
+            # whole header (with payload) selects the right parser and is not rejected
+            for name, h in samples.items():
+                facts = dict(wfacts, **{dparam: h + b"payload"})
+                want, other = (mk["V1"], mk["V2"]) if ver == "v1" else (mk["V2"], mk["V1"])
+                w = must_pass_under(g, facts, want, to=fd + [g.exit])
+                R = reach_under(g, facts, avoid=fd)
+                ctx.check(w is None and not (R & set(other)) and not (R & set(reject)), "sniff/version-dispatch", q + f" | <whole {ver} header {name}>",
+                          f"a complete {ver} header in the first segment does not select the {ver} parser", witness=g.describe(w))
+        for junk in GARBAGE:
+            facts = dict(wfacts, **{dparam: junk})
+            # refused at once, or handed to a parser (whose parse() refuses it: InvalidProxyHeader -> handler rules below); never forwarded unparsed
+            w = must_pass_under(g, facts, reject + fd)
+            R = reach_under(g, facts, avoid=fd)
+            ctx.check(w is None and not (R & set(fw)), "sniff/garbage-rejected", q + f" | <first segment {junk[:14]!r}...>",
+                      "a first segment that cannot begin a PROXY header is neither refused nor given to a parser, or reaches the application unparsed",
+                      witness=g.describe(w))
+
+    with ctx.section("wrapper ordering"):
+        ctx.need(bool(wr), "anchors of HAProxyProtocolWrapper.dataReceived")
+        # ================= (b) ordering in the wrapper ================================================================================
+        for n, call in feeds:
+            c = ctx.construct(q, call)
+            ctx.check(len(call.args) == 1 and src(call.args[0]) == dparam, "wrapper/feeds-segment", c, "the parser is not fed exactly the received segment")
+            st = g.node(n).ast
+            tg = st.targets[0] if isinstance(st, ast.Assign) else None
+            ok = isinstance(tg, ast.Tuple) and len(tg.elts) == 2 and src(tg.elts[0]) == "self._proxyInfo" and isinstance(tg.elts[1], ast.Name)
+            ctx.check(ok, "wrapper/feed-result-stored", c, "the (info, remaining) result of feed() is not stored as self._proxyInfo / remaining")
+            rem = tg.elts[1].id if ok else None
+            hs = [h for h in succ_of(g, n, "exc") if g.node(h).kind == "handler"]
+            good_h = [h for h in hs if set(handler_names(g.node(h).ast)) & {"InvalidProxyHeader", "Exception", "BaseException"}]
+            ctx.check(bool(good_h), "wrapper/invalid-header-closes", c + " | handler",
+                      "InvalidProxyHeader (and its subclasses) raised by feed() is not caught around the call: an invalid header is not turned into a clean close")
+            for h in good_h:
+                w = g.must_pass([h], closes)
+                ctx.check(w is None, "wrapper/invalid-header-closes", ctx.construct(q, f"except {', '.join(handler_names(g.node(h).ast))}:"),
+                          "an invalid header does not close the connection", witness=g.describe(w))
+                R = g.reach([h], edge_ok=lambda a, b, l: l != "exc")
+                ctx.check(not (set(R) & set(fw)), "wrapper/invalid-header-forwards-nothing", ctx.construct(q, f"except {', '.join(handler_names(g.node(h).ast))}:") + " | nothing forwarded",
+                          "bytes are handed to the application after the header was found invalid")
+            for m, fc in forwards:
+                a = src(fc.args[0]) if fc.args else ""
+                cf = ctx.construct(q, fc)
+                if implied(g, m, [{"self._proxyInfo": NONNULL}], [{"self._proxyInfo": None}]):
+                    ctx.check(a == dparam, "wrapper/pass-through", cf, "after the header, the application is not given exactly the received segment")
+                else:
+                    ok2 = a == rem and g.must_precede([n], [m], exc=True) is None and g.path([n], [m], edge_ok=lambda a_, b_, l: l != "exc") is not None
+                    ctx.check(ok2, "wrapper/only-remaining-forwarded", cf,
+                              "bytes reach the application that are neither post-header pass-through nor the 'remaining' part returned by feed(): "
+                              "header bytes leak to the application (or data is forwarded before the header was parsed)")
+                    ctx.check(implied(g, m, [{a: b"x"}], [{a: b""}]) or implied(g, m, [{a: b"x"}], [{a: None}]), "wrapper/remaining-nonempty", cf,
+                              "the application is called with nothing / None when the header is still incomplete")
+        ctx.floor("wrapper/forward-sites", len(forwards), 2)
+        facts = {"self._proxyInfo": NONNULL}
+        w = must_pass_under(g, facts, [m for m, fc in forwards if fc.args and src(fc.args[0]) == dparam])
+        R = reach_under(g, facts)
+        ctx.check(w is None and not (R & set(fd)) and not (R & set(reject)), "wrapper/pass-through", q + " | <header already parsed>",
+                  "once the header is parsed, later segments are not passed straight through (they are parsed / sniffed again)", witness=g.describe(w))
+        facts = {"self._proxyInfo": None, "self._parser": NONNULL}
+        w = must_pass_under(g, facts, fd)
+        R = reach_under(g, facts, avoid=fd)
+        ctx.check(w is None and not (R & set(reject)) and not (R & set(mk["V1"] + mk["V2"])), "wrapper/parser-kept-across-segments", q + " | <parser chosen, header incomplete>",
+                  "the next segment of an incomplete header is sniffed again instead of being fed to the parser chosen for the first segment",
+                  witness=g.describe(w))
+        for ver in ("V1", "V2"):
+            for n in mk[ver]:
+                st = g.node(n).ast
+                tgs = [src(t) for t in st.targets]
+                later = self_assigns(g, "_parser")
+                ok = "self._parser" in tgs or (later and g.must_pass([n], later, to=fd + [g.exit]) is None)
+                ctx.check(ok, "wrapper/parser-kept-across-segments", ctx.construct(q, st),
+                          "the parser chosen for the first segment is not stored in self._parser: the rest of a segmented header is sniffed as if it were a new stream")
+        acc = class_accesses(ctx.mod(W), ctx.cls(W, "HAProxyProtocolWrapper"), {"_proxyInfo"}, {"self"})
+        for a in acc:
+            ok = a.func.endswith(".__init__") or (a.func.endswith(".dataReceived") and any(a.node is g.node(n).ast for n in fd))
+            ctx.check(ok, "wrapper/proxyinfo-who-may-write", ctx.construct(Q + "_wrapper." + a.func, a.node), "_proxyInfo is set from something other than the parser's result")
+    with ctx.section("getPeer/getHost"):
+        # ---- sec: getPeer getHost
+        for meth, attr in (("getPeer", "source"), ("getHost", "destination")):
+            fm = ctx.func(W, f"HAProxyProtocolWrapper.{meth}")
+            gm = ctx.cfg(fm)
+            rets = [x for x in gm.nodes if x.kind == "stmt" and gm.reachable(x.id) and isinstance(x.ast, ast.Return) and x.ast.value is not None]
+            pr = [x for x in rets if src(x.ast.value).startswith("self._proxyInfo.")]
+            ok = bool(pr) and all(src(x.ast.value) == f"self._proxyInfo.{attr}" for x in pr) and \
+                all(implied(gm, x.id, [{f"self._proxyInfo.{attr}": NONNULL, "self._proxyInfo": NONNULL}], [{f"self._proxyInfo.{attr}": None, "self._proxyInfo": NONNULL}]) for x in pr)
+            ctx.check(ok, "wrapper/address-from-header", QW + meth, f"{meth}() does not answer with the header's {attr} address when the header carried one")
+            tr = [x for x in rets if src(x.ast.value) == f"self.transport.{meth}()"]
+            ctx.check(bool(tr), "wrapper/address-fallback", QW + meth, f"{meth}() has no fallback to the transport's own address (UNKNOWN / LOCAL headers)")
+
+    with ctx.section("V1Parser.feed"):
+        ctx.need(bool(K), "V1Parser / V2Parser constants")
+        # ================= (a') the parsers' feed(), evaluated on concrete segmentations =================================================
+        f1 = ctx.func(V1, "V1Parser.feed")
+        g1 = ctx.cfg(f1)
+        q1 = Q + "_v1parser.V1Parser.feed"
+        d1 = f1.args.args[1].arg
+        parse1 = call_nodes(g1, "self.parse", "cls.parse", "V1Parser.parse")
+        rz1 = _raises(g1, "InvalidProxyHeader")
+        none_ret = [x.id for x in g1.nodes if x.kind == "stmt" and g1.reachable(x.id) and isinstance(x.ast, ast.Return) and x.ast.value is not None
+                    and src(x.ast.value) in ("(None, None)",)]
+        base1 = {"self.NEWLINE": K["V1Parser.NEWLINE"]}
+        nseg = 0
+        for name, h in V1_SAMPLES.items():
+            for cut in sorted({1, 5, 8, len(h) // 2, len(h) - 2, len(h) - 1}):
+                for k in (cut,):
+                    nseg += 1
+                    # first segment h[:k] : incomplete
+                    facts = dict(base1, **{"self.buffer": b"", d1: h[:k]})
+                    R = reach_under(g1, facts)
+                    w = must_pass_under(g1, facts, none_ret)
+                    ctx.check(w is None and not (R & set(rz1)) and not (R & set(parse1)), "v1feed/incomplete-waits", q1 + f" | <{name} header, first {k} of {len(h)} bytes>",
+                              "an incomplete v1 header is rejected or parsed instead of waiting for the rest", witness=g1.describe(w))
+                    # second segment completes it
+                    facts = dict(base1, **{"self.buffer": h[:k], d1: h[k:] + b"GET /\r\n\r\n"})
+                    w = must_pass_under(g1, facts, parse1)
+                    R = reach_under(g1, facts, avoid=parse1)
+                    ctx.check(w is None and not (R & set(none_ret)), "v1feed/completed-header-parsed", q1 + f" | <{name} header completed by the 2nd segment after {k} bytes>",
+                              "a header completed by a later segment is not parsed", witness=g1.describe(w))
+        ctx.extra["feed_segmentations_evaluated"] = nseg
+        facts = dict(base1, **{"self.buffer": b"", d1: b"PROXY TCP6 " + b"f" * 95})   # 106 bytes, CR LF still to come: longest legal line is 107
+        R = reach_under(g1, facts)
+        ctx.check(not (R & set(rz1)), "v1feed/length-limit-admits-longest-header", q1 + " | <106 bytes buffered, no CRLF yet>",
+                  "a v1 header of the maximum legal length (107 bytes with CRLF) is refused while its CRLF is still in flight")
+        facts = dict(base1, **{"self.buffer": b"", d1: b"P" * 300})
+        R = reach_under(g1, facts)
+        ctx.check(bool(R & set(rz1)) and g1.exit not in R, "v1feed/length-limit", q1 + " | <300 bytes, no CRLF>", "an endless first line is buffered without limit")
+        sp = [x for x in walk_local(f1) if isinstance(x, ast.Call) and isinstance(x.func, ast.Attribute) and x.func.attr == "split" and src(x.func.value) == "self.buffer"]
+        ok = len(sp) == 1 and len(sp[0].args) == 2 and src(sp[0].args[0]) == "self.NEWLINE" and const_value_is(sp[0].args[1], lambda v: v == 1)
+        ctx.check(ok, "v1feed/split-once", q1 + " | <split>",
+                  "the buffer is not split exactly once at the first CRLF: a payload containing CRLF is truncated / mistaken for the header")
+        # (info, remaining): remaining is the tail of the split, header the head
+        rets = [x for x in walk_local(f1) if isinstance(x, ast.Return) and isinstance(x.value, ast.Tuple) and len(x.value.elts) == 2 and src(x.value) != "(None, None)"]
+        ok = False
+        if len(rets) == 1 and sp:
+            info, rem = rets[0].value.elts
+            idef = local_def(f1, info)
+            hname = src(idef.args[0]) if isinstance(idef, ast.Call) and call_name(idef) in ("self.parse", "cls.parse", "V1Parser.parse") and idef.args else None
+            lines = None
+            for st in walk_local(f1):
+                if isinstance(st, ast.Assign) and st.value is sp[0] and isinstance(st.targets[0], ast.Name):
+                    lines = st.targets[0].id
+            pops = [n for n in g1.nodes if n.kind == "stmt" and g1.reachable(n.id) and isinstance(n.ast, ast.Assign) and isinstance(n.ast.value, ast.Call)
+                    and lines and src(n.ast.value.func) == f"{lines}.pop" and isinstance(n.ast.targets[0], ast.Name)]
+            if hname and lines and len(pops) == 2 and all(not p.ast.value.args or const_value_is(p.ast.value.args[0], lambda v: v == -1) for p in pops):
+                first, second = (pops[0], pops[1]) if g1.path([pops[0].id], [pops[1].id], strict=True) else (pops[1], pops[0])
+                ok = first.ast.targets[0].id == src(rem) and second.ast.targets[0].id == hname
+            elif hname and lines:
+                for st in walk_local(f1):
+                    if isinstance(st, ast.Assign) and isinstance(st.targets[0], ast.Tuple) and src(st.value) == lines:
+                        ok = [src(e) for e in st.targets[0].elts] == [hname, src(rem)]
+        ctx.check(ok, "v1feed/header-and-payload-order", q1 + " | <return>", "feed() does not return (parse(text before the first CRLF), bytes after it)")
+        rs1 = self_assigns(g1, "buffer", lambda v: const_value_is(v, lambda x: x == b""))
+        ctx.check(all(g1.must_precede(rs1, [p]) is None or True for p in parse1) and not (reach_under(g1, dict(base1, **{"self.buffer": b"", d1: b"PROXY"})) & set(rs1)),
+                  "v1feed/buffer-kept-while-incomplete", q1 + " | <incomplete>", "the partial header is discarded while waiting for the rest")
+
+    with ctx.section("V2Parser.feed"):
+        ctx.need(bool(K), "V1Parser / V2Parser constants")
+        ctx.need(bool(wr), "anchors of HAProxyProtocolWrapper.dataReceived")
+        # ---- sec: V2Parser.feed
+        f2 = ctx.func(V2, "V2Parser.feed")
+        g2 = ctx.cfg(f2)
+        q2 = Q + "_v2parser.V2Parser.feed"
+        d2 = f2.args.args[1].arg
+        parse2 = call_nodes(g2, "self.parse", "cls.parse", "V2Parser.parse")
+        rz2 = _raises(g2, "InvalidProxyHeader")
+        none2 = [x.id for x in g2.nodes if x.kind == "stmt" and g2.reachable(x.id) and isinstance(x.ast, ast.Return) and x.ast.value is not None and src(x.ast.value) == "(None, None)"]
+        rs2 = self_assigns(g2, "buffer", lambda v: const_value_is(v, lambda x: x == b""))
+        # smallest first segment for which the wrapper hands a v2 header to V2Parser
+        kmin = None
+        h0 = V2_SAMPLES["INET/STREAM"]
+        for k in range(1, len(h0) + 1):
+            if reach_under(g, dict(wfacts, **{dparam: h0[:k]}), avoid=fd) & set(mk["V2"]):
+                kmin = k
+                break
+        ctx.need(kmin, "a first-segment length for which the wrapper selects V2Parser")
+        for name, h in V2_SAMPLES.items():
+            for k in sorted(set(range(kmin, min(len(h), kmin + 4))) | {len(h) - 1}):
+                if k >= len(h) or k < kmin:
+                    continue
+                facts = {"self.buffer": b"", d2: h[:k]}
+                R = reach_under(g2, facts)
+                w = must_pass_under(g2, facts, none2)
+                ctx.check(w is None and not (R & set(rz2)) and not (R & set(parse2)) and not (R & set(rs2)), "v2feed/incomplete-waits",
+                          q2 + f" | <{name} header, first {k} of {len(h)} bytes (wrapper selects V2Parser from {kmin} bytes)>",
+                          "an incomplete v2 header that the wrapper already routed to V2Parser is rejected, parsed or dropped instead of waiting",
+                          witness=g2.describe(w))
+                facts = {"self.buffer": h[:k], d2: h[k:]}
+                w = must_pass_under(g2, facts, parse2)
+                ctx.check(w is None, "v2feed/completed-header-parsed", q2 + f" | <{name} header completed exactly (no payload) after a cut at {k}>",
+                          "a v2 header whose last byte has just arrived is not parsed until more data comes", witness=g2.describe(w))
+        hs = [st for st in walk_local(f2) if isinstance(st, ast.Assign) and isinstance(st.targets[0], ast.Tuple) and isinstance(st.value, ast.Tuple) and len(st.value.elts) == 2]
+        ok = False
+        for st in hs:
+            a, b = (slice_parts(e) for e in st.value.elts)
+            if a and b and src(a[0]) == src(b[0]) == "self.buffer" and a[1] is None and a[2] is not None and b[2] is None and b[1] is not None and src(a[2]) == src(b[1]):
+                sz = local_def(f2, a[2])
+                try:
+                    val = peval(sz, {"self.buffer": h0 + b"xyz"})
+                except NotConst:
+                    val = None
+                names = [src(e) for e in st.targets[0].elts]
+                pr = [c for c in walk_local(f2) if isinstance(c, ast.Call) and call_name(c) in ("self.parse", "cls.parse", "V2Parser.parse")]
+                ok = val == len(h0) and bool(pr) and src(pr[0].args[0]) == names[0] and any(isinstance(r, ast.Return) and isinstance(r.value, ast.Tuple) and src(r.value.elts[1]) == names[1] for r in walk_local(f2))
+        ctx.check(ok, "v2feed/header-and-payload-split", q2 + " | <split>",
+                  "feed() does not cut the buffer at 16 + the length field into (header given to parse, payload returned)")
+
+    with ctx.section("ADDRESSFORMATS"):
+        # ================= (c) tables and constants ========================================================================================
+        ca2 = class_assigns(ctx.cls(V2, "V2Parser"))
         try:
-            width_ok = peval(hi, {f"struct.calcsize({fmtname})": 12, f"calcsize({fmtname})": 12}) - peval(lo, {}) == 12 and peval(lo, {}) == 16
-        except (NotConst, TypeError):
-            width_ok = False
-        ok = width_ok and bool(ups) and all(src(c.args[0]) == fmtname and src(c.args[1]) == src(st.targets[0]) for c in ups) and \
-            src(local_def(fp2, ast.Name(id=fmtname))) == "cls.ADDRESSFORMATS[familyProto]"
-    ctx.check(ok, "v2table/slice-width", Q + "_v2parser.V2Parser.parse | <address block>",
-              "the address block is not line[16 : 16 + calcsize(format)] unpacked with that same format chosen by the family|protocol byte")
-    # version constants agree between wrapper sniff and parser
-    try:
-        versions = peval(ca2["VERSIONS"], {})
-        commands = {peval(k, {}) for k in ca2["COMMANDS"].keys}
-        high = peval(ctx.mod(V2).module_assign("_HIGH"), {})
-    except (KeyError, NotConst, AttributeError, TypeError):
-        versions = commands = high = None
-    ctx.check(versions == [0x20] and commands == {0, 1} and high == 0xF0, "v2table/version-command", Q + "_v2parser.V2Parser.VERSIONS/COMMANDS",
-              "version nibble 0x2 with commands LOCAL(0)/PROXY(1) is not what the parser accepts")
-    ctx.check(K["V2Parser.PREFIX"] == _SIG and K["V1Parser.PROXYSTR"] == b"PROXY" and K["V1Parser.NEWLINE"] == b"\r\n", "tables/signatures", Q + "V2Parser.PREFIX / V1Parser.PROXYSTR",
-              "the protocol signatures differ from the PROXY protocol specification")
-    ca1 = class_assigns(ctx.cls(V1, "V1Parser"))
-    try:
-        allowed = peval(ca1["ALLOWED_NET_PROTOS"], {"TCP4_PROTO": K["V1Parser.TCP4_PROTO"], "TCP6_PROTO": K["V1Parser.TCP6_PROTO"], "UNKNOWN_PROTO": K["V1Parser.UNKNOWN_PROTO"]})
-    except (KeyError, NotConst):
-        allowed = ()
-    ctx.check(set(allowed) == {b"TCP4", b"TCP6", b"UNKNOWN"}, "v1table/allowed-protocols", Q + "_v1parser.V1Parser.ALLOWED_NET_PROTOS",
-              f"the allowed v1 protocols are {sorted(allowed)}; TCP4, TCP6 and UNKNOWN must all be accepted (and nothing else)")
-    # source / destination slots
-    fp1 = ctx.func(V1, "V1Parser.parse")
-    for fp, qq, srcnames, dstnames in ((fp1, Q + "_v1parser.V1Parser.parse", ("sourceAddr", "sourcePort"), ("destAddr", "destPort")),
-                                      (fp2, Q + "_v2parser.V2Parser.parse", ("source", "sPort"), ("dest", "dPort"))):
-        n_ = 0
-        for r in (x for x in walk_local(fp) if isinstance(x, ast.Return) and isinstance(x.value, ast.Call) and src(x.value.func).endswith("ProxyInfo") and len(x.value.args) == 3):
-            s_, d_ = r.value.args[1], r.value.args[2]
-            if const_value_is(s_, lambda v: v is None) and const_value_is(d_, lambda v: v is None):
-                continue
-            n_ += 1
-            sn = {x.id for x in ast.walk(s_) if isinstance(x, ast.Name)}
-            dn = {x.id for x in ast.walk(d_) if isinstance(x, ast.Name)}
-            ok = not (sn & set(dstnames)) and not (dn & set(srcnames)) and bool(sn & set(srcnames)) and bool(dn & set(dstnames))
-            ctx.check(ok, "parse/source-dest-slots", ctx.construct(qq, r), "a destination field is used for the source address (or the reverse)")
-        ctx.floor("parse/source-dest-slots", n_, 2)
-    # v1 field order: src addr, dst addr, src port, dst port
-    order = []
-    for st in walk_local(fp1):
-        if isinstance(st, ast.Assign) and isinstance(st.targets[0], ast.Tuple) and isinstance(st.value, ast.Call) and src(st.value.func) == "line.split":
-            order.append(src(st.targets[0].elts[0]))
-        elif isinstance(st, ast.Assign) and isinstance(st.targets[0], ast.Name) and "line.split" in src(st.value):
-            order.append(st.targets[0].id)
-    ctx.check(order == ["proxyStr", "networkProtocol", "sourceAddr", "destAddr", "sourcePort", "destPort"], "parse/v1-field-order", Q + "_v1parser.V1Parser.parse | <fields>",
-              f"the v1 fields are not taken in the order 'PROXY proto src dst sport dport' (found {order})")
-    up = [st for st in walk_local(fp2) if isinstance(st, ast.Assign) and isinstance(st.targets[0], ast.Tuple) and len(st.targets[0].elts) == 4]
-    ctx.check(any([src(e) for e in st.targets[0].elts] == ["source", "dest", "sPort", "dPort"] for st in up), "parse/v2-field-order", Q + "_v2parser.V2Parser.parse | <fields>",
-              "the unpacked v2 address block is not read as (source, dest, sPort, dPort)")
-    # informational: conversions outside convertError
-    loose = []
-    for fp, nm in ((fp1, "V1Parser.parse"), (fp2, "V2Parser.parse")):
-        for c in walk_local(fp):
-            if isinstance(c, ast.Call) and (call_name(c) == "int" or (isinstance(c.func, ast.Attribute) and c.func.attr == "decode")):
-                p = getattr(c, "_parent", None)
-                inside = False
-                while p is not None and p is not fp:
-                    if isinstance(p, ast.With) and any("convertError" in src(i.context_expr) for i in p.items):
-                        inside = True
-                    p = getattr(p, "_parent", None)
-                if not inside:
-                    loose.append(f"{nm}: {src(c)}")
-    if loose:
-        ctx.note("informational (not armed): conversions outside convertError raise ValueError/UnicodeDecodeError instead of InvalidProxyHeader; the exception still "
-                 "closes the connection through the transport: " + "; ".join(sorted(set(loose))[:8]))
+            fmts = peval(ca2["ADDRESSFORMATS"], {}) if False else {peval(k, {}): peval(v, {}) for k, v in zip(ca2["ADDRESSFORMATS"].keys, ca2["ADDRESSFORMATS"].values)}
+        except (KeyError, NotConst, AttributeError):
+            fmts = None
+        ctx.need(isinstance(fmts, dict), "V2Parser.ADDRESSFORMATS literal")
+        fam = {}
+        for cname in ("NetFamily", "NetProtocol"):
+            cdef = ctx.cls(V2, cname)
+            vals = {}
+            for k, v in class_assigns(cdef).items():
+                if isinstance(v, ast.Call) and call_name(v) == "ValueConstant" and v.args:
+                    vals[k] = peval(v.args[0], {})
+            fam[cname] = vals
+        spec_size = {0x10: 12, 0x20: 36, 0x30: 216}
+        for fn, fv in fam["NetFamily"].items():
+            for pn, pv in fam["NetProtocol"].items():
+                if fn == "UNSPEC" or pn == "UNSPEC":
+                    continue
+                key = fv | pv
+                c = Q + f"_v2parser.V2Parser.ADDRESSFORMATS[{fn}|{pn} = {key:#04x}]"
+                okk = key in fmts
+                if okk:
+                    try:
+                        okk = struct.calcsize(fmts[key]) == spec_size.get(fv) and fmts[key][:1] in ("!", ">")
+                    except struct.error:
+                        okk = False
+                ctx.check(okk, "v2table/address-formats", c,
+                          "no address format (or one of the wrong size / byte order) for a family|protocol byte the parser accepts: a valid header ends in KeyError "
+                          "or mis-sliced addresses")
+        ctx.floor("v2table/address-formats", len(fmts), 3)
+    with ctx.section("V2Parser.parse address block"):
+        # ---- sec: v2 slice
+        fp2 = ctx.func(V2, "V2Parser.parse")
+        sl = [x for x in walk_local(fp2) if isinstance(x, ast.Assign) and slice_parts(x.value) and "calcsize" in src(x.value)]
+        ok = False
+        for st in sl:
+            v, lo, hi = slice_parts(st.value)
+            fmtname = None
+            for c in ast.walk(hi):
+                if isinstance(c, ast.Call) and call_name(c) in ("struct.calcsize", "calcsize") and c.args:
+                    fmtname = src(c.args[0])
+            ups = [c for c in walk_local(fp2) if isinstance(c, ast.Call) and call_name(c) in ("struct.unpack", "unpack") and len(c.args) == 2]
+            try:
+                width_ok = peval(hi, {f"struct.calcsize({fmtname})": 12, f"calcsize({fmtname})": 12}) - peval(lo, {}) == 12 and peval(lo, {}) == 16
+            except (NotConst, TypeError):
+                width_ok = False
+            ok = width_ok and bool(ups) and all(src(c.args[0]) == fmtname and src(c.args[1]) == src(st.targets[0]) for c in ups) and \
+                src(local_def(fp2, ast.Name(id=fmtname))) == "cls.ADDRESSFORMATS[familyProto]"
+        ctx.check(ok, "v2table/slice-width", Q + "_v2parser.V2Parser.parse | <address block>",
+                  "the address block is not line[16 : 16 + calcsize(format)] unpacked with that same format chosen by the family|protocol byte")
+    with ctx.section("protocol constants agree"):
+        ctx.need(bool(K), "V1Parser / V2Parser constants")
+        # version constants agree between wrapper sniff and parser
+        try:
+            versions = peval(ca2["VERSIONS"], {})
+            commands = {peval(k, {}) for k in ca2["COMMANDS"].keys}
+            high = peval(ctx.mod(V2).module_assign("_HIGH"), {})
+        except (KeyError, NotConst, AttributeError, TypeError):
+            versions = commands = high = None
+        ctx.check(versions == [0x20] and commands == {0, 1} and high == 0xF0, "v2table/version-command", Q + "_v2parser.V2Parser.VERSIONS/COMMANDS",
+                  "version nibble 0x2 with commands LOCAL(0)/PROXY(1) is not what the parser accepts")
+        ctx.check(K["V2Parser.PREFIX"] == _SIG and K["V1Parser.PROXYSTR"] == b"PROXY" and K["V1Parser.NEWLINE"] == b"\r\n", "tables/signatures", Q + "V2Parser.PREFIX / V1Parser.PROXYSTR",
+                  "the protocol signatures differ from the PROXY protocol specification")
+        ca1 = class_assigns(ctx.cls(V1, "V1Parser"))
+        try:
+            allowed = peval(ca1["ALLOWED_NET_PROTOS"], {"TCP4_PROTO": K["V1Parser.TCP4_PROTO"], "TCP6_PROTO": K["V1Parser.TCP6_PROTO"], "UNKNOWN_PROTO": K["V1Parser.UNKNOWN_PROTO"]})
+        except (KeyError, NotConst):
+            allowed = ()
+        ctx.check(set(allowed) == {b"TCP4", b"TCP6", b"UNKNOWN"}, "v1table/allowed-protocols", Q + "_v1parser.V1Parser.ALLOWED_NET_PROTOS",
+                  f"the allowed v1 protocols are {sorted(allowed)}; TCP4, TCP6 and UNKNOWN must all be accepted (and nothing else)")
+    with ctx.section("parsed fields"):
+        # source / destination slots
+        fp1 = ctx.func(V1, "V1Parser.parse")
+        fp2 = ctx.func(V2, "V2Parser.parse")
+        for fp, qq, srcnames, dstnames in ((fp1, Q + "_v1parser.V1Parser.parse", ("sourceAddr", "sourcePort"), ("destAddr", "destPort")),
+                                          (fp2, Q + "_v2parser.V2Parser.parse", ("source", "sPort"), ("dest", "dPort"))):
+            n_ = 0
+            for r in (x for x in walk_local(fp) if isinstance(x, ast.Return) and isinstance(x.value, ast.Call) and src(x.value.func).endswith("ProxyInfo") and len(x.value.args) == 3):
+                s_, d_ = r.value.args[1], r.value.args[2]
+                if const_value_is(s_, lambda v: v is None) and const_value_is(d_, lambda v: v is None):
+                    continue
+                n_ += 1
+                sn = {x.id for x in ast.walk(s_) if isinstance(x, ast.Name)}
+                dn = {x.id for x in ast.walk(d_) if isinstance(x, ast.Name)}
+                ok = not (sn & set(dstnames)) and not (dn & set(srcnames)) and bool(sn & set(srcnames)) and bool(dn & set(dstnames))
+                ctx.check(ok, "parse/source-dest-slots", ctx.construct(qq, r), "a destination field is used for the source address (or the reverse)")
+            ctx.floor("parse/source-dest-slots", n_, 2)
+        # v1 field order: src addr, dst addr, src port, dst port
+        order = []
+        for st in walk_local(fp1):
+            if isinstance(st, ast.Assign) and isinstance(st.targets[0], ast.Tuple) and isinstance(st.value, ast.Call) and src(st.value.func) == "line.split":
+                order.append(src(st.targets[0].elts[0]))
+            elif isinstance(st, ast.Assign) and isinstance(st.targets[0], ast.Name) and "line.split" in src(st.value):
+                order.append(st.targets[0].id)
+        ctx.check(order == ["proxyStr", "networkProtocol", "sourceAddr", "destAddr", "sourcePort", "destPort"], "parse/v1-field-order", Q + "_v1parser.V1Parser.parse | <fields>",
+                  f"the v1 fields are not taken in the order 'PROXY proto src dst sport dport' (found {order})")
+        up = [st for st in walk_local(fp2) if isinstance(st, ast.Assign) and isinstance(st.targets[0], ast.Tuple) and len(st.targets[0].elts) == 4]
+        ctx.check(any([src(e) for e in st.targets[0].elts] == ["source", "dest", "sPort", "dPort"] for st in up), "parse/v2-field-order", Q + "_v2parser.V2Parser.parse | <fields>",
+                  "the unpacked v2 address block is not read as (source, dest, sPort, dPort)")
+    with ctx.section("informational"):
+        fp1 = ctx.func(V1, "V1Parser.parse")
+        fp2 = ctx.func(V2, "V2Parser.parse")
+        # informational: conversions outside convertError
+        loose = []
+        for fp, nm in ((fp1, "V1Parser.parse"), (fp2, "V2Parser.parse")):
+            for c in walk_local(fp):
+                if isinstance(c, ast.Call) and (call_name(c) == "int" or (isinstance(c.func, ast.Attribute) and c.func.attr == "decode")):
+                    p = getattr(c, "_parent", None)
+                    inside = False
+                    while p is not None and p is not fp:
+                        if isinstance(p, ast.With) and any("convertError" in src(i.context_expr) for i in p.items):
+                            inside = True
+                        p = getattr(p, "_parent", None)
+                    if not inside:
+                        loose.append(f"{nm}: {src(c)}")
+        if loose:
+            ctx.note("informational (not armed): conversions outside convertError raise ValueError/UnicodeDecodeError instead of InvalidProxyHeader; the exception still "
+                     "closes the connection through the transport: " + "; ".join(sorted(set(loose))[:8]))
 
 
 _SNIFF_OLD = ("            if (\n                len(data) >= 16\n                and data[:12] == V2Parser.PREFIX\n                and ord(data[12:13]) & 0b11110000 == 0x20\n            ):\n"
